@@ -3,10 +3,12 @@ package service
 import (
 	"cmp"
 	"context"
+	"fmt"
 	"log/slog"
 	"os"
 	"time"
 
+	"github.com/AdguardTeam/golibs/errors"
 	"github.com/AdguardTeam/golibs/logutil/slogutil"
 	"github.com/AdguardTeam/golibs/osutil"
 )
@@ -107,6 +109,19 @@ func (h *SignalHandler) Handle(ctx context.Context) (status osutil.ExitCode) {
 	panic("unexpected close of h.signal")
 }
 
+// shutdownService shuts down a single service, converting a panic in its
+// Shutdown method into an error, so that the rest of the services are still
+// shut down and the failure is reflected in the exit status.
+func shutdownService(ctx context.Context, s Interface) (err error) {
+	defer func() {
+		if v := recover(); v != nil {
+			err = fmt.Errorf("panic: %w", errors.FromRecovered(v))
+		}
+	}()
+
+	return s.Shutdown(ctx)
+}
+
 // shutdown gracefully shuts down all services.  status is
 // [osutil.ExitCodeSuccess] on success and [osutil.ExitCodeFailure] on error.
 func (h *SignalHandler) shutdown(ctx context.Context) (status osutil.ExitCode) {
@@ -114,8 +129,7 @@ func (h *SignalHandler) shutdown(ctx context.Context) (status osutil.ExitCode) {
 
 	status = osutil.ExitCodeSuccess
 	for i := len(h.services) - 1; i >= 0; i-- {
-		s := h.services[i]
-		err := s.Shutdown(ctx)
+		err := shutdownService(ctx, h.services[i])
 		if err == nil {
 			continue
 		}
